@@ -67,10 +67,6 @@ Definition omodes_plain (o : option modes) : bool := match o with None => true |
 Definition g_no_wildcard (m : mf) : bool :=
   omodes_plain (absorption m) && omodes_plain (elimination m) && omodes_plain (lagtime m) && omodes_plain (metabolite m) &&
   forallb (fun p => modes_plain (p_keys p) && modes_plain (p_vals p)) (peripherals m).
-(* g_cov_symmetric: neither covariate effect set is a proper subset of the other *)
-Definition g_cov_symmetric (a b : mf) : bool :=
-  let ea := E_cov (covariate a) in let eb := E_cov (covariate b) in
-  Bool.eqb (subsetb effect_eqb ea eb) (subsetb effect_eqb eb ea).
 (* g_tuples_canonical: equal peripheral / indirect-effect denotations are written as the same statement tuples *)
 Definition g_tuples_canonical (a b : mf) : bool :=
   (negb (seteqb pair_eqb (Epk_periph a) (Epk_periph b)) || pstmts_eq (peripherals a) (peripherals b)) &&
